@@ -50,6 +50,30 @@ def generate(ctx):
                 for p in t:
                     p[1] = ctx.rng.choice([1e-4 * beta, 10 * beta])
         yield "ops", dict(case=case, meta=meta)
+    # corner lattice (complete in both tiers, sharded): the games with the LARGEST arguments the stated box allows - every
+    # player at +-20 beta, 13..16 players a side, sigma from the floor of the range up to where the exponent argument
+    # falls below ~350 - in two and three teams, every outcome of the two-team games, all five models, three skill units
+    from ..util import MODEL_NAMES as _MN
+
+    idx = 0
+    for m_ in _MN:
+        for scale in (1.0, 1e-3, 1e3):
+            for sizes in ((16, 16), (13, 13), (16, 13), (16, 1), (16, 13, 16), (8, 8)):
+                for sg in (1e-4, 0.05, 0.19, 1.0, 10.0):
+                    idx += 1
+                    if idx % ctx.nshards != ctx.shard:
+                        continue
+                    beta = 25.0 / 6.0 * scale
+                    cfg = dict(mu=25.0 * scale, sigma=25.0 / 3.0 * scale, beta=beta, kappa=ctx.rng.choice([1e-12, 1e-4, 1e-2]),
+                               tau=ctx.rng.choice([0.0, 25.0 / 300.0 * scale]), limit_sigma=False, gamma="default")
+                    teams = [[[(20 * beta if i % 2 == 0 else -20 * beta), sg * beta, f"c{i}_{j}"] for j in range(n_)]
+                             for i, n_ in enumerate(sizes)]
+                    orders = ([[0, 1], [1, 0], [0, 0]] if len(sizes) == 2 else [[0, 1, 2], [2, 0, 1], [0, 0, 1]])
+                    for lv in orders:
+                        case = dict(model=m_, cfg=cfg, teams=teams, sel="ranks", vals=list(lv), call={})
+                        yield "ops", dict(case=case, meta=dict(regime="corner_lattice", levels=lv, enc="int0/ranks",
+                                                               ties=gen.tie_shape(lv), k=len(sizes)))
+    ctx.count("corner_lattice_complete")
 
 
 def _finite(x):
